@@ -256,3 +256,64 @@ def cancel_task_contract():
         ],
         raises={}, modifies="ALL", protected=["self", "self.cancellers", "self.pending_requests", "self.state_engine",
                                             "self.state_engine.event_dispatcher"])
+
+
+# --------------------------------------------------------------------------------------------------------------------
+# C04: a reply that arrives around a restart before its task's event is redelivered is parked in orphaned_responses and
+# matched by a periodic sweep; the sweep keeps itself scheduled for as long as something is parked.
+# --------------------------------------------------------------------------------------------------------------------
+def _orphan_scope():
+    from pyvc.contracts import Registry
+    sc = Registry()
+    for g, t in (("o_ntimer", "int"), ("o_timer_cb", "val"), ("o_timer_delay", "val"), ("o_nresp", "int")):
+        sc.ghost(g, t)
+    sc.external("self.logger.*", ["msg"], modifies=None, result_type="none")
+    sc.external("self.state_engine.event_dispatcher.set_timeout", ["callback", "delay"], modifies=None, result_type="fn",
+                ghost={"o_ntimer": "o_ntimer + 1", "o_timer_cb": "callback", "o_timer_delay": "delay"})
+    return sc
+
+
+def schedule_orphaned_response_handler_contract():
+    c = Contract(
+        TD + "TaskDispatcher.schedule_orphaned_response_handler", types={"self": "obj"},
+        requires=["isdict(self.orphaned_responses)", "isbool(self.handle_orphaned_responses_is_scheduled)", "isobj(self.state_engine)",
+                  "isobj(self.state_engine.event_dispatcher)", "not same(self, self.orphaned_responses)"],
+        ensures=[
+            ("C04:sweep-armed-when-orphans-wait", "implies(not old(isemptydict(self.orphaned_responses)) and "
+                                                  "not old(self.handle_orphaned_responses_is_scheduled), o_ntimer == old(o_ntimer) + 1 and "
+                                                  "o_timer_delay == 1000 and self.handle_orphaned_responses_is_scheduled == True)"),
+            ("C04:at-most-one-sweep-pending", "implies(old(self.handle_orphaned_responses_is_scheduled) or old(isemptydict(self.orphaned_responses)), "
+                                              "o_ntimer == old(o_ntimer) and self.handle_orphaned_responses_is_scheduled == "
+                                              "old(self.handle_orphaned_responses_is_scheduled))"),
+            ("C03,C04:orphans-untouched", "unchanged(self.orphaned_responses)"),
+        ],
+        raises={}, modifies=["self"])
+    c.scope = _orphan_scope()
+    return c
+
+
+def handle_orphaned_responses_contract():
+    """The sweep itself: whatever the matching loop did, on return a further sweep is pending iff something is still parked."""
+    sc = _orphan_scope()
+    sc.contract(TD + "TaskDispatcher.handle_rpcmessage_response", types={"self": "obj", "message": "any"}, modifies="ALL",
+                preserves="PROTECTED", raises={}, ghost={"o_nresp": "o_nresp + 1"}, ghost_modifies=[],
+                assumes=["handle_rpcmessage_response (own contract: C16 / C03) does not touch the sweep's scheduling flag"])
+    c = Contract(
+        TD + "TaskDispatcher.handle_orphaned_responses", types={"self": "obj"},
+        requires=["isdict(self.orphaned_responses)", "isdict(self.pending_requests)", "isobj(self.state_engine)",
+                  "isobj(self.state_engine.event_dispatcher)", "not same(self, self.orphaned_responses)", "not same(self, self.pending_requests)"],
+        ensures=[
+            ("C04:sweep-rearmed-while-orphans-remain", "implies(len(self.orphaned_responses) != 0, "
+                                                       "self.handle_orphaned_responses_is_scheduled == True and o_ntimer == old(o_ntimer) + 1 and "
+                                                       "o_timer_delay == 1000)"),
+            ("C04:sweep-stops-when-nothing-is-parked", "implies(len(self.orphaned_responses) == 0, "
+                                                       "self.handle_orphaned_responses_is_scheduled == False and o_ntimer == old(o_ntimer))"),
+        ],
+        loops={0: LoopContract(invariants=[("timer-untouched", "o_ntimer == old(o_ntimer)"),
+                                           ("tables-are-dicts", "isdict(self.orphaned_responses) and isdict(self.pending_requests)")],
+                               havoc_heap=True)},
+        raises={"TypeError": None, "ValueError": None},
+        protected=["self", "self.state_engine", "self.state_engine.event_dispatcher"],
+        modifies="ALL")
+    c.scope = sc
+    return c
